@@ -158,7 +158,7 @@ func c01APIEval(cs *core.Case) (ok bool, sig, msg string) {
 	case 0:
 		// tight copy so that Detect's own slicing cannot hide behind capacity
 		in := append(make([]byte, 0, len(cs.In)), cs.In...)
-		m = detect(in, cs.Limit)
+		m = detectRaw(in, cs.Limit)
 		if !bytes.Equal(in, cs.In) {
 			return false, "C01/modifies-input/Detect", "Detect modified its input"
 		}
@@ -193,6 +193,15 @@ func c01Setup(c *core.Ctx) {
 	c01Ctx = c
 	c.Register("c01det", c01DetEval)
 	c.Register("c01api", c01APIEval)
+	// deep nestings in a child process (a Go stack overflow is fatal, it cannot be
+	// recovered in-process): Ints = shape depth closed lead limitmode entry
+	c.Register("c01bomb", func(cs *core.Case) (bool, string, string) {
+		ok, sig, msg := c16RunChild(c, cs)
+		if !ok && (strings.Contains(sig, "stack-overflow") || strings.Contains(sig, "child-died")) {
+			return false, strings.Replace(sig, "C16/", "C01/does-not-return/", 1), msg
+		}
+		return true, "", ""
+	})
 	if c.Out != "" {
 		c.StartWatchdog(120*time.Second, c.Out)
 	}
@@ -500,6 +509,23 @@ func c01Run(c *core.Ctx) {
 			}
 		}
 		apis(lit, []uint32{0, 1, uint32(len(lit))}, []int{0, 1}, "f5:source-literal")
+	}
+
+	// ---- family 6: deep nestings, examined in full, in a child process
+	bomb := &core.Case{Kind: "c01bomb", Ints: make([]int, 6)}
+	for si := 0; si < 3; si++ {
+		for _, d := range []int{100000, 3000000} {
+			for entry := 0; entry <= 1; entry++ {
+				if !c.Next() || c.Expired() {
+					continue
+				}
+				bomb.Ints[0], bomb.Ints[1], bomb.Ints[2], bomb.Ints[3], bomb.Ints[4], bomb.Ints[5] = si, d, 0, 0, 0, entry
+				c.R.States++
+				c.R.Transitions++
+				c.R.Evals++
+				c.Check(bomb)
+			}
+		}
 	}
 
 	// ---- family 4: single-byte mutation sweep of witnesses <= 600
